@@ -959,4 +959,533 @@ example : (serve { opts := [], method := "POST".toList, csrfVerified := false, c
 
 end method
 
+/-! ## trailingslash -/
+section slash
+open Slash
+
+/-- a byte that `net/url` leaves unescaped in a path is printable, and none of `% ? # \\` -/
+theorem lemma_unescaped (c : Char) (h : shouldEscapePath c = false) :
+    32 < c.toNat ∧ c.toNat ≠ 127 ∧ c.toNat ≠ 92 ∧ c.toNat ≠ 37 ∧ c.toNat ≠ 63 ∧ c.toNat ≠ 35 ∧ c.toNat ≠ 42 := by
+  unfold shouldEscapePath isAlnum at h
+  simp only [Bool.or_eq_true, Bool.and_eq_true, decide_eq_true_eq] at h
+  split at h
+  · omega
+  · split at h
+    · omega
+    · split at h
+      · omega
+      · cases h
+
+theorem lemma_toNat_ne {c d : Char} (h : c.toNat ≠ d.toNat) : c ≠ d := fun e => h (e ▸ rfl)
+
+theorem lemma_escapePath_cons (c : Char) (r : Bytes) :
+    escapePath (c :: r) =
+      if shouldEscapePath c = true then '%' :: upperhex (c.toNat / 16) :: upperhex (c.toNat % 16) :: escapePath r
+      else c :: escapePath r := by
+  rw [escapePath]
+
+theorem lemma_pctDecode_plain (c : Char) (rest : Bytes) (h : c ≠ '%') :
+    pctDecode (c :: rest) = (pctDecode rest).map (c :: ·) := by
+  cases rest with
+  | nil => simp [pctDecode, h]
+  | cons a t =>
+    cases t with
+    | nil => simp [pctDecode, h]
+    | cons b u => simp [pctDecode, h]
+
+theorem lemma_pctDecode_pct (a b : Char) (rest r : Bytes) (x y : Nat)
+    (ha : hexVal a = some x) (hb : hexVal b = some y) (hr : pctDecode rest = some r) :
+    pctDecode ('%' :: a :: b :: rest) = some (Char.ofNat (16 * x + y) :: r) := by
+  rw [pctDecode]; simp [ha, hb, hr]
+
+theorem lemma_hex (n : Nat) (h : n < 16) : hexVal (upperhex n) = some n := by
+  revert n; decide
+
+theorem lemma_hex_good (n : Nat) (h : n < 16) :
+    32 < (upperhex n).toNat ∧ (upperhex n).toNat ≠ 127 ∧ (upperhex n).toNat ≠ 92 ∧ (upperhex n).toNat ≠ 63 := by
+  revert n; decide
+
+/-- characters that no client strips, rewrites or reads as a delimiter before the query -/
+def Good (c : Char) : Prop := 32 < c.toNat ∧ c.toNat ≠ 127 ∧ c.toNat ≠ 92 ∧ c.toNat ≠ 63
+
+theorem lemma_escape_good (p : Bytes) (hb : ∀ c ∈ p, c.toNat < 256) : ∀ c ∈ escapePath p, Good c := by
+  induction p with
+  | nil => simp [escapePath]
+  | cons a r ih =>
+    have hr : ∀ c ∈ r, c.toNat < 256 := fun c hc => hb c (List.mem_cons_of_mem _ hc)
+    have ha : a.toNat < 256 := hb a (List.mem_cons_self ..)
+    rw [lemma_escapePath_cons]
+    by_cases hs : shouldEscapePath a = true
+    · simp only [hs, if_true]
+      intro c hc
+      simp only [List.mem_cons] at hc
+      rcases hc with rfl | rfl | rfl | hc
+      · exact ⟨by decide, by decide, by decide, by decide⟩
+      · exact lemma_hex_good _ (by omega)
+      · exact lemma_hex_good _ (by omega)
+      · exact ih hr c hc
+    · have hs' : shouldEscapePath a = false := by simpa using hs
+      simp only [hs', Bool.false_eq_true, if_false]
+      intro c hc
+      simp only [List.mem_cons] at hc
+      rcases hc with rfl | hc
+      · obtain ⟨h1, h2, h3, _, h5, _⟩ := lemma_unescaped c hs'
+        exact ⟨h1, h2, h3, h5⟩
+      · exact ih hr c hc
+
+/-- **escaping is invertible**: percent-decoding what `net/url` prints gives the path back -/
+theorem lemma_decode_escape (p : Bytes) (hb : ∀ c ∈ p, c.toNat < 256) : pctDecode (escapePath p) = some p := by
+  induction p with
+  | nil => simp [escapePath, pctDecode]
+  | cons a r ih =>
+    have hr : ∀ c ∈ r, c.toNat < 256 := fun c hc => hb c (List.mem_cons_of_mem _ hc)
+    have ha : a.toNat < 256 := hb a (List.mem_cons_self ..)
+    rw [lemma_escapePath_cons]
+    by_cases hs : shouldEscapePath a = true
+    · simp only [hs, if_true]
+      rw [lemma_pctDecode_pct _ _ _ _ _ _ (lemma_hex _ (show a.toNat / 16 < 16 by omega))
+        (lemma_hex _ (Nat.mod_lt _ (by omega))) (ih hr)]
+      have : 16 * (a.toNat / 16) + a.toNat % 16 = a.toNat := Nat.div_add_mod _ _
+      simp only [this, Char.ofNat_toNat]
+    · have hs' : shouldEscapePath a = false := by simpa using hs
+      simp only [hs', Bool.false_eq_true, if_false]
+      have hne : a ≠ '%' := lemma_toNat_ne (lemma_unescaped a hs').2.2.2.1
+      rw [lemma_pctDecode_plain _ _ hne, ih hr]
+      rfl
+
+theorem lemma_decode_plain_append (x y : Bytes) (hx : ∀ c ∈ x, c ≠ '%') :
+    pctDecode (x ++ y) = (pctDecode y).map (x ++ ·) := by
+  induction x with
+  | nil => simp
+  | cons a r ih =>
+    have ha : a ≠ '%' := hx a (List.mem_cons_self ..)
+    have hr : ∀ c ∈ r, c ≠ '%' := fun c hc => hx c (List.mem_cons_of_mem _ hc)
+    rw [List.cons_append, lemma_pctDecode_plain _ _ ha, ih hr]
+    cases pctDecode y <;> simp
+
+theorem lemma_pathPart (x q : Bytes) (hx : ∀ c ∈ x, c ≠ '?') (hq : q = [] ∨ ∃ t, q = '?' :: t) :
+    pathPart (x ++ q) = x := by
+  unfold pathPart
+  induction x with
+  | nil =>
+    rcases hq with rfl | ⟨t, rfl⟩
+    · rfl
+    · simp
+  | cons a r ih =>
+    have ha : a ≠ '?' := hx a (List.mem_cons_self ..)
+    have hr : ∀ c ∈ r, c ≠ '?' := fun c hc => hx c (List.mem_cons_of_mem _ hc)
+    rw [List.cons_append, List.takeWhile_cons_of_pos (by simpa using ha), ih hr]
+
+theorem lemma_query_shape (rq : Bytes) (fq : Bool) : queryFor rq fq = [] ∨ ∃ t, queryFor rq fq = '?' :: t := by
+  unfold queryFor; split
+  · right; exact ⟨rq, rfl⟩
+  · left; rfl
+
+theorem lemma_good_ne {c : Char} (h : Good c) : c ≠ '?' ∧ c ≠ '\\' ∧ 32 < c.toNat ∧ c.toNat ≠ 127 :=
+  ⟨lemma_toNat_ne h.2.2.2, lemma_toNat_ne h.2.2.1, h.1, h.2.1⟩
+
+theorem lemma_escaped_good (p : Bytes) (hb : ∀ c ∈ p, c.toNat < 256) : ∀ c ∈ escapedPath p, Good c := by
+  unfold escapedPath
+  split
+  · intro c hc; simp at hc; subst hc; exact ⟨by decide, by decide, by decide, by decide⟩
+  · exact lemma_escape_good p hb
+
+theorem lemma_decode_escaped (p : Bytes) (hb : ∀ c ∈ p, c.toNat < 256) : pctDecode (escapedPath p) = some p := by
+  unfold escapedPath
+  split
+  · next h => rw [h]; decide
+  · exact lemma_decode_escape p hb
+
+theorem lemma_escaped_slash (t : Bytes) : escapedPath ('/' :: t) = '/' :: escapePath t := by
+  unfold escapedPath
+  have : ('/' :: t) ≠ ['*'] := by intro h; simp at h
+  simp only [this, if_false]
+  rw [lemma_escapePath_cons]
+  have : shouldEscapePath '/' = false := by decide
+  simp [this]
+
+/-- the first character of an escaped path is `/` exactly when the path's is -/
+theorem lemma_escaped_head (p : Bytes) :
+    (∃ t, p = '/' :: t) ∨ (∀ t, p ≠ '/' :: t) ∧ (∀ t, escapedPath p ≠ '/' :: t) := by
+  cases p with
+  | nil => right; simp [escapedPath, escapePath]
+  | cons a r =>
+    by_cases ha : a = '/'
+    · left; exact ⟨r, by rw [ha]⟩
+    · right
+      refine ⟨fun t h => ha (by simp at h; exact h.1), ?_⟩
+      intro t
+      unfold escapedPath
+      split
+      · intro h; simp at h
+      · rw [lemma_escapePath_cons]
+        by_cases hs : shouldEscapePath a = true
+        · simp only [hs, if_true]; intro h; simp at h
+        · simp only [hs]; intro h; simp at h; exact ha h.1
+
+/-- the printed reference starts with two slashes exactly when the path does -/
+theorem lemma_two_slashes (np q : Bytes) (hq : q = [] ∨ ∃ t, q = '?' :: t) :
+    ['/', '/'].isPrefixOf (escapedPath np ++ q) = true ↔ ∃ t, np = '/' :: '/' :: t := by
+  constructor
+  · intro h
+    rcases lemma_escaped_head np with ⟨t, rfl⟩ | ⟨_, hne⟩
+    · rw [lemma_escaped_slash] at h
+      cases t with
+      | nil =>
+        rcases hq with rfl | ⟨u, rfl⟩
+        · simp [escapePath, List.isPrefixOf] at h
+        · simp [escapePath, List.isPrefixOf] at h
+      | cons b u =>
+        by_cases hb : b = '/'
+        · exact ⟨u, by rw [hb]⟩
+        · exfalso
+          rw [lemma_escapePath_cons] at h
+          by_cases hs : shouldEscapePath b = true
+          · simp [hs, List.isPrefixOf] at h
+          · simp [hs, List.isPrefixOf] at h
+            exact hb h.symm
+    · exfalso
+      cases he : escapedPath np with
+      | nil =>
+        rw [he] at h
+        rcases hq with rfl | ⟨u, rfl⟩
+        · simp at h
+        · simp [List.isPrefixOf] at h
+      | cons a r =>
+        rw [he] at h
+        simp [List.isPrefixOf] at h
+        exact hne r (by rw [he, h.1])
+  · rintro ⟨t, rfl⟩
+    rw [lemma_escaped_slash, lemma_escapePath_cons]
+    have : shouldEscapePath '/' = false := by decide
+    simp [this, List.isPrefixOf]
+
+/-- what holds of every URL `net/http` parses from a request line: `Path` is a byte string; `pre`
+    (the printed `scheme://host`) is empty exactly when there is no host; and a URL with a host has
+    an empty or rooted path (RFC 3986 §3.3) -/
+structure WellFormed (r : Req) : Prop where
+  bytes : ∀ c ∈ r.path, c.toNat < 256
+  origin : r.pre = [] → r.hostSet = false
+  absolute : r.pre ≠ [] → r.hostSet = true
+  rooted : r.hostSet = true → r.path = [] ∨ ∃ t, r.path = '/' :: t
+
+theorem lemma_dropLast (l : Bytes) (a : Char) (h : l.getLast? = some a) : l.dropLast ++ [a] = l := by
+  have hne : l ≠ [] := by intro e; subst e; simp at h
+  rw [List.getLast?_eq_some_getLast hne] at h
+  simp only [Option.some.injEq] at h
+  rw [← h]
+  exact List.dropLast_concat_getLast hne
+
+/-- the redirect target is the path with the final slash added or removed -/
+theorem lemma_target (policy : Nat) (path np : Bytes) (h : target policy path = some np) :
+    path ≠ ['/'] ∧ (np = path ++ ['/'] ∨ np ++ ['/'] = path) := by
+  unfold target at h
+  by_cases h0 : path = ['/']
+  · simp [h0] at h
+  · refine ⟨h0, ?_⟩
+    simp only [h0, if_false] at h
+    by_cases hp0 : policy = 0
+    · simp only [hp0, if_true] at h
+      by_cases hs : hasSlash path = true
+      · simp only [hs, if_true, Option.some.injEq] at h
+        right
+        rw [← h]
+        unfold hasSlash at hs
+        exact lemma_dropLast _ _ (by simpa using hs)
+      · simp [hs] at h
+    · simp only [hp0, if_false] at h
+      by_cases hp1 : policy = 1
+      · simp only [hp1, if_true] at h
+        by_cases hs : hasSlash path = true
+        · simp [hs] at h
+        · simp only [hs, Bool.false_eq_true, if_false, Option.some.injEq] at h
+          left; exact h.symm
+      · simp [hp1] at h
+
+theorem lemma_target_props (r : Req) (hwf : WellFormed r) (np : Bytes) (h : target r.policy r.path = some np) :
+    (∀ c ∈ np, c.toNat < 256) ∧ (r.hostSet = true → ∃ t, np = '/' :: t) := by
+  obtain ⟨hne, hm⟩ := lemma_target _ _ _ h
+  constructor
+  · intro c hc
+    rcases hm with rfl | hm
+    · rcases List.mem_append.mp hc with h1 | h1
+      · exact hwf.bytes c h1
+      · simp at h1; subst h1; decide
+    · exact hwf.bytes c (by rw [← hm]; exact List.mem_append_left _ hc)
+  · intro hh
+    rcases hwf.rooted hh with hp | ⟨t, hp⟩
+    · rcases hm with rfl | hm
+      · exact ⟨[], by rw [hp]; rfl⟩
+      · rw [hp] at hm; simp at hm
+    · rcases hm with rfl | hm
+      · exact ⟨t ++ ['/'], by rw [hp]; rfl⟩
+      · cases np with
+        | nil =>
+          exfalso; apply hne
+          rw [hp] at hm ⊢
+          simp at hm
+          rw [← hm]
+        | cons a u =>
+          rw [hp] at hm
+          simp only [List.cons_append, List.cons.injEq] at hm
+          exact ⟨u, by rw [hm.1]⟩
+
+theorem lemma_schemeLike_false (ep q : Bytes) (hc : firstSegHasColon ep = false)
+    (hq : q = [] ∨ ∃ t, q = '?' :: t) : schemeLike (ep ++ q) = false := by
+  induction ep with
+  | nil =>
+    rcases hq with rfl | ⟨t, rfl⟩
+    · rfl
+    · simp [schemeLike]
+  | cons a r ih =>
+    unfold firstSegHasColon at hc
+    simp only [List.cons_append]
+    unfold schemeLike
+    by_cases h1 : a = '/'
+    · simp [h1]
+    · simp only [h1, if_false] at hc
+      by_cases h2 : a = ':'
+      · simp [h2] at hc
+      · simp only [h2, if_false] at hc
+        simp [h1, h2, ih hc]
+
+theorem lemma_good_all (l : Bytes) (h : ∀ c ∈ l, Good c) : cleanPath l = true := by
+  unfold cleanPath
+  simp only [List.all_eq_true, Bool.and_eq_true, decide_eq_true_eq, bne_iff_ne, ne_eq]
+  intro c hc
+  obtain ⟨h1, h2, h3, _⟩ := h c hc
+  exact ⟨⟨h1, lemma_toNat_ne h3⟩, h2⟩
+
+/-- the shape of the `Location` value: `pre ++ body ++ query` where `body` consists of characters
+    clients leave alone, percent-decodes to the target path (possibly behind `./`), and begins in a
+    way no client reads as a host -/
+theorem lemma_location (r : Req) (hwf : WellFormed r) (np : Bytes) (hb : ∀ c ∈ np, c.toNat < 256)
+    (hroot : r.hostSet = true → ∃ t, np = '/' :: t) :
+    ∃ d body, (d = [] ∨ d = ['.', '/']) ∧
+      location r np = r.pre ++ (body ++ queryFor r.rawQuery r.forceQuery) ∧
+      (∀ c ∈ body, Good c) ∧ pctDecode body = some (d ++ np) ∧
+      startOK r.pre (body ++ queryFor r.rawQuery r.forceQuery) = true := by
+  have hq := lemma_query_shape r.rawQuery r.forceQuery
+  have hgood := lemma_escaped_good np hb
+  have hdec := lemma_decode_escaped np hb
+  -- no slash is inserted before the path
+  have hsl : slashFor r.hostSet (escapedPath np) = [] := by
+    unfold slashFor
+    by_cases hh : r.hostSet = true
+    · obtain ⟨t, rfl⟩ := hroot hh
+      rw [lemma_escaped_slash]; simp
+    · split
+      · simp [hh]
+      · rfl
+  by_cases hpre : r.pre = []
+  · -- origin form
+    have hhost := hwf.origin hpre
+    have hasis : locationAsIs r np =
+        dotFor [] [] (escapedPath np) ++ (escapedPath np ++ queryFor r.rawQuery r.forceQuery) := by
+      unfold locationAsIs urlString
+      simp [hsl, hpre]
+    by_cases h2 : ∃ t, np = '/' :: '/' :: t
+    · -- the repaired case: the path starts with two slashes
+      obtain ⟨t, rfl⟩ := h2
+      have hbt : ∀ c ∈ t, c.toNat < 256 := fun c hc => hb c (by simp [hc])
+      have hep : escapedPath ('/' :: '/' :: t) = '/' :: '/' :: escapePath t := by
+        rw [lemma_escaped_slash, lemma_escapePath_cons]
+        have : shouldEscapePath '/' = false := by decide
+        simp [this]
+      have hdot : dotFor [] [] (escapedPath ('/' :: '/' :: t)) = [] := by
+        unfold dotFor; rw [hep]; simp [firstSegHasColon]
+      refine ⟨[], ['/', '%', '2', 'F'] ++ escapePath t, Or.inl rfl, ?_, ?_, ?_, ?_⟩
+      · unfold location
+        rw [hasis, hdot, hep, hpre]
+        simp [hhost, List.isPrefixOf]
+      · intro c hc
+        simp only [List.cons_append, List.nil_append, List.mem_cons] at hc
+        rcases hc with rfl | rfl | rfl | rfl | hc
+        · exact ⟨by decide, by decide, by decide, by decide⟩
+        · exact ⟨by decide, by decide, by decide, by decide⟩
+        · exact ⟨by decide, by decide, by decide, by decide⟩
+        · exact ⟨by decide, by decide, by decide, by decide⟩
+        · exact lemma_escape_good t hbt c hc
+      · have h1 := lemma_pctDecode_pct '2' 'F' (escapePath t) t 2 15 (by decide) (by decide) (lemma_decode_escape t hbt)
+        simp only [List.cons_append, List.nil_append]
+        rw [lemma_pctDecode_plain _ _ (by decide), h1]
+        rfl
+      · rw [hpre]; simp [startOK, safeRef]
+    · -- every other path: the value is `newURL.String()` unchanged
+      have hnot : ['/', '/'].isPrefixOf (locationAsIs r np) = false := by
+        rw [hasis]
+        unfold dotFor
+        by_cases hc : firstSegHasColon (escapedPath np) = true
+        · simp [hc, List.isPrefixOf]
+        · have hc' : firstSegHasColon (escapedPath np) = false := by simpa using hc
+          simp only [hc', Bool.false_eq_true, and_false, if_false, List.nil_append]
+          cases hp : ['/', '/'].isPrefixOf (escapedPath np ++ queryFor r.rawQuery r.forceQuery) with
+          | false => rfl
+          | true => exact absurd ((lemma_two_slashes np _ hq).mp hp) h2
+      have hloc : location r np = locationAsIs r np := by
+        unfold location; simp [hnot]
+      refine ⟨dotFor [] [] (escapedPath np), dotFor [] [] (escapedPath np) ++ escapedPath np, ?_, ?_, ?_, ?_, ?_⟩
+      · unfold dotFor; split
+        · right; rfl
+        · left; rfl
+      · rw [hloc, hasis, hpre]; simp
+      · intro c hc
+        rcases List.mem_append.mp hc with h1 | h1
+        · unfold dotFor at h1
+          split at h1
+          · simp at h1; rcases h1 with rfl | rfl <;> exact ⟨by decide, by decide, by decide, by decide⟩
+          · simp at h1
+        · exact hgood c h1
+      · rw [lemma_decode_plain_append _ _ (by
+          intro c hc; unfold dotFor at hc; split at hc
+          · simp at hc; rcases hc with rfl | rfl <;> decide
+          · simp at hc), hdec]
+        rfl
+      · rw [hpre]
+        simp only [startOK, if_true]
+        unfold dotFor
+        by_cases hc : firstSegHasColon (escapedPath np) = true
+        · simp [hc, safeRef, schemeLike]
+        · have hc' : firstSegHasColon (escapedPath np) = false := by simpa using hc
+          simp only [hc', Bool.false_eq_true, and_false, if_false, List.nil_append]
+          have hsch := lemma_schemeLike_false (escapedPath np) _ hc' hq
+          cases hep : escapedPath np with
+          | nil =>
+            rcases hq with hq | ⟨t, hq⟩
+            · rw [hq]; rfl
+            · rw [hq]; simp [safeRef, schemeLike]
+          | cons a rest =>
+            have ha := hgood a (by rw [hep]; exact List.mem_cons_self ..)
+            have hane : a ≠ '\\' := lemma_toNat_ne ha.2.2.1
+            rw [hep] at hsch
+            by_cases ha2 : a = '/'
+            · subst ha2
+              cases hrest : rest ++ queryFor r.rawQuery r.forceQuery with
+              | nil => simp [safeRef, hrest]
+              | cons b u =>
+                have hb1 : b ≠ '/' := by
+                  intro hb1; subst hb1
+                  apply h2
+                  apply (lemma_two_slashes np _ hq).mp
+                  rw [hep, List.cons_append, hrest]; rfl
+                have hb2 : b ≠ '\\' := by
+                  cases rest with
+                  | nil =>
+                    simp only [List.nil_append] at hrest
+                    rcases hq with hq | ⟨t, hq⟩
+                    · rw [hq] at hrest; cases hrest
+                    · rw [hq] at hrest; simp only [List.cons.injEq] at hrest; rw [← hrest.1]; decide
+                  | cons b' u' =>
+                    simp only [List.cons_append, List.cons.injEq] at hrest
+                    have := hgood b' (by rw [hep]; simp)
+                    rw [← hrest.1]; exact lemma_toNat_ne this.2.2.1
+                simp [safeRef, hrest, hb1, hb2]
+            · simp only [safeRef, List.cons_append, hane, if_false, ha2]
+              simp only [List.cons_append] at hsch
+              simp [hsch]
+  · -- absolute form: `scheme://host` is printed first, the path follows unchanged
+    have hhost := hwf.absolute hpre
+    obtain ⟨t, rfl⟩ := hroot hhost
+    have hdot : dotFor r.pre [] (escapedPath ('/' :: t)) = [] := by unfold dotFor; simp [hpre]
+    have hasis : locationAsIs r ('/' :: t) = r.pre ++ (escapedPath ('/' :: t) ++ queryFor r.rawQuery r.forceQuery) := by
+      unfold locationAsIs urlString
+      simp [hsl, hdot]
+    refine ⟨[], escapedPath ('/' :: t), Or.inl rfl, ?_, hgood, by simpa using hdec, ?_⟩
+    · unfold location; simp [hpre, hasis]
+    · rw [lemma_escaped_slash]
+      simp [startOK, hpre]
+
+/-- when the middleware answers, and with what -/
+theorem lemma_slash_serve (r : Req) :
+    (target r.policy r.path = none ∧ serve r = { ran := true, status := 200, loc := none }) ∨
+    (∃ np, target r.policy r.path = some np ∧ serve r = { ran := false, status := 308, loc := some (location r np) }) := by
+  unfold serve serveWith
+  cases h : target r.policy r.path with
+  | none => left; exact ⟨rfl, rfl⟩
+  | some np => right; exact ⟨np, rfl, rfl⟩
+
+/-- **A redirect goes to the request's own path with the final slash added or removed**: the
+    `Location` is the request's own `scheme://host` (nothing for an origin-form request) followed by
+    a path part that percent-decodes to that path (as `p` or the equivalent `./p`). Every path,
+    every policy, query or not. -/
+theorem redirect_same_path_modulo_slash (r : Req) (hwf : WellFormed r) (loc : Bytes)
+    (h : (serve r).loc = some loc) :
+    ∃ np rest, (np = r.path ++ ['/'] ∨ np ++ ['/'] = r.path) ∧ loc = r.pre ++ rest ∧
+      (pctDecode (pathPart rest) = some np ∨ pctDecode (pathPart rest) = some ('.' :: '/' :: np)) ∧
+      (serve r).status = 308 ∧ (serve r).ran = false := by
+  rcases lemma_slash_serve r with ⟨_, hs⟩ | ⟨np, ht, hs⟩
+  · rw [hs] at h; cases h
+  · rw [hs] at h ⊢
+    simp only [Option.some.injEq] at h
+    obtain ⟨hb, hroot⟩ := lemma_target_props r hwf np ht
+    obtain ⟨d, body, hd, hloc, hgood, hdec, _⟩ := lemma_location r hwf np hb hroot
+    refine ⟨np, body ++ queryFor r.rawQuery r.forceQuery, (lemma_target _ _ _ ht).2, by rw [← h, hloc], ?_, rfl, rfl⟩
+    rw [lemma_pathPart body _ (fun c hc => (lemma_good_ne (hgood c hc)).1) (lemma_query_shape _ _), hdec]
+    rcases hd with rfl | rfl
+    · left; rfl
+    · right; rfl
+
+/-- **The `Location` cannot be read as another host**: for an origin-form request it is a reference
+    without scheme and authority — it never begins with `//`, `/\` or `\`, and if it is not
+    path-absolute it has no `scheme:` prefix; for an absolute-form request what follows the request's
+    own `scheme://host` starts a path or query. Its path part contains no control character, space,
+    DEL or backslash that a client would strip or rewrite. -/
+theorem location_is_path_absolute (r : Req) (hwf : WellFormed r) (loc : Bytes)
+    (h : (serve r).loc = some loc) :
+    ∃ rest, loc = r.pre ++ rest ∧ startOK r.pre rest = true ∧ cleanPath (pathPart rest) = true := by
+  rcases lemma_slash_serve r with ⟨_, hs⟩ | ⟨np, ht, hs⟩
+  · rw [hs] at h; cases h
+  · rw [hs] at h
+    simp only [Option.some.injEq] at h
+    obtain ⟨hb, hroot⟩ := lemma_target_props r hwf np ht
+    obtain ⟨d, body, hd, hloc, hgood, hdec, hstart⟩ := lemma_location r hwf np hb hroot
+    refine ⟨body ++ queryFor r.rawQuery r.forceQuery, by rw [← h, hloc], hstart, ?_⟩
+    rw [lemma_pathPart body _ (fun c hc => (lemma_good_ne (hgood c hc)).1) (lemma_query_shape _ _)]
+    exact lemma_good_all body hgood
+
+/-- **The trailing-slash gate meets its oracle** for every request URL `net/http` can hand it -/
+theorem slash_meets_spec (r : Req) (hwf : WellFormed r) : specOK r (serve r) = true := by
+  rcases lemma_slash_serve r with ⟨_, hs⟩ | ⟨np, ht, hs⟩
+  · rw [hs]; rfl
+  · obtain ⟨np', rest, hm, hloc, hdec, _, _⟩ := redirect_same_path_modulo_slash r hwf (location r np) (by rw [hs])
+    obtain ⟨rest', hloc', hstart, hclean⟩ := location_is_path_absolute r hwf (location r np) (by rw [hs])
+    have hrr : rest' = rest := List.append_cancel_left (hloc'.symm.trans hloc)
+    subst hrr
+    rw [hs]
+    have hdrop : (location r np).drop r.pre.length = rest' := by rw [hloc]; simp
+    have hpre : r.pre.isPrefixOf (location r np) = true := by
+      rw [List.isPrefixOf_iff_prefix, hloc]; exact List.prefix_append _ _
+    have hdt : decodesTo r.path (pathPart rest') = true := by
+      unfold decodesTo moduloSlash
+      rcases hdec with hd | hd
+      · rw [hd]
+        rcases hm with hm | hm
+        · simp [hm]
+        · simp [hm]
+      · rw [hd]
+        rcases hm with hm | hm
+        · simp [hm, List.isPrefixOf]
+        · simp [hm, List.isPrefixOf]
+    simp [specOK, locOK, hdrop, hpre, hstart, hclean, hdt]
+
+/-- K17: as shipped, `//evil.com/` under PolicyRemove was redirected to `Location: //evil.com` -/
+theorem slash_asis_witness :
+    (serveAsIs { policy := 0, path := "//evil.com/".toList, pre := [], hostSet := false, rawQuery := [], forceQuery := false }).loc
+      = some "//evil.com".toList ∧
+    specOK { policy := 0, path := "//evil.com/".toList, pre := [], hostSet := false, rawQuery := [], forceQuery := false }
+      (serveAsIs { policy := 0, path := "//evil.com/".toList, pre := [], hostSet := false, rawQuery := [], forceQuery := false }) = false := by
+  decide
+
+/-- the repaired redirect for the same request, and ordinary requests (non-vacuity) -/
+example : (serve { policy := 0, path := "//evil.com/".toList, pre := [], hostSet := false, rawQuery := [], forceQuery := false }).loc
+    = some "/%2Fevil.com".toList := by decide
+example : (serve { policy := 0, path := "/users/".toList, pre := [], hostSet := false, rawQuery := "page=2".toList, forceQuery := false }).loc
+    = some "/users?page=2".toList := by decide
+example : (serve { policy := 1, path := "/a b".toList, pre := "http://h".toList, hostSet := true, rawQuery := [], forceQuery := false }).loc
+    = some "http://h/a%20b/".toList := by decide
+example : WellFormed { policy := 0, path := "//evil.com/".toList, pre := [], hostSet := false, rawQuery := [], forceQuery := false } :=
+  ⟨by decide, by decide, by decide, fun h => by cases h⟩
+
+end slash
+
 end Rivaas.C17
